@@ -9,6 +9,8 @@ self-check.
 from .layout import (ATTR_DECRYPT, ATTR_ENCRYPT, ENC_TPM2B, TAG_NO_SESSIONS, TAG_SESSIONS, disp, layout)
 
 HASH_SIZES = (20, 32, 48, 64)
+SMALL = (0, 1, 2, 3, 10, 127, 128, 129, 246, 254, 255, 256, 257, 32767, 32768, 65535, 65536,
+         -1, -2, -3, -10, -127, -128, -129, -246, -255, -256, -257, -32768, -65536)
 
 
 class Knobs:
@@ -68,6 +70,11 @@ class Gen:
         if a == b:
             return a
         r = rng.random()
+        if b - a > 1024 and rng.random() < 0.35:
+            # wide ranges: small magnitudes and power-of-two neighbours are where width / sign / caching bugs live
+            c = [v for v in SMALL if a <= v <= b]
+            if c:
+                return rng.choice(c)
         if r < self.k.p_endpoint:
             return rng.choice((a, b, a + 1 if a + 1 <= b else a, b - 1 if b - 1 >= a else b))
         return rng.randint(a, b)
